@@ -363,6 +363,33 @@ fn cmd_nlsweep() {
     out.flush().unwrap();
 }
 
+/// C04: textual form of every 24-bit address and its parse-back.  The equation from_str(to_string(a)) = a and the
+/// shape of the text are evaluated here for all 2^24 addresses (an oracle-free equation); the event carries the
+/// number of failures and sample texts, which TLC judges (count must be 0, samples must equal Bits!HexN).
+fn cmd_icao() {
+    use core::str::FromStr;
+    let mut failures: u64 = 0;
+    let mut first_fail: i64 = -1;
+    let mut samples = vec![];
+    let picks: [u32; 12] = [0, 1, 0xf, 0x10, 0xabcdef, 0xa2c1bd, 0x00ff00, 0x7fffff, 0x800000, 0xfffffe, 0xffffff, 0x0a0b0c];
+    for a in 0..(1u32 << 24) {
+        let icao = adsb_deku::ICAO([(a >> 16) as u8, (a >> 8) as u8, a as u8]);
+        let text = icao.to_string();
+        let shape = text.len() == 6 && text.bytes().all(|c| c.is_ascii_digit() || (b'a'..=b'f').contains(&c));
+        let back = adsb_deku::ICAO::from_str(&text).ok();
+        if !shape || back != Some(icao) {
+            failures += 1;
+            if first_fail < 0 {
+                first_fail = i64::from(a);
+            }
+        }
+        if picks.contains(&a) || a % 1_398_101 == 7 {
+            samples.push(json!({"a": a, "text": text}));
+        }
+    }
+    println!("{}", json!({"ev": "icao", "checked": 1u32 << 24, "failures": failures.min(2_000_000_000), "first_failure": first_fail, "samples": samples}));
+}
+
 fn main() {
     // panics of the code under test are data, not noise
     std::panic::set_hook(Box::new(|_| {}));
@@ -370,6 +397,7 @@ fn main() {
     match args.get(1).map(String::as_str) {
         Some("decode") => cmd_decode(&args[2..]),
         Some("pair") => cmd_pair(),
+        Some("icao") => cmd_icao(),
         Some("track") => track::cmd_track(),
         #[cfg(feature = "std")]
         Some("reader") => reader::cmd_reader(),
